@@ -88,6 +88,54 @@ def run():
         results.append({"control": "BrokerTrace corrupted field " + field, "ok": ok, "reported": [v["key"] for v in rep.violations][:1]})
         print("%-28s %s" % ("BrokerTrace/" + field, "ok" if ok else "FAILED"))
         allok &= ok
+    # ---- binding of EnvLedgerTrace.tla: one logged field of a recorded TradingEnv execution corrupted per clause
+    from . import envledger_check as el
+    base = el.record(2, 11, "quick")
+
+    def bump(r):
+        return [r[0] + r[1], r[1]]
+
+    def corrupt(recs, clause):
+        for t in recs:
+            ops = t["ops"]
+            for i, o in enumerate(ops):
+                if clause == "nlv" and o["op"] == "quote" and i > 12:
+                    o["nlv"] = bump(o["nlv"]); return True
+                if o["op"] == "rebalance" and o["trades"]:
+                    if clause in ("cash", "ctxpre", "ctxpost"):
+                        o[clause] = bump(o[clause]); return True
+                    if clause in ("pos", "mrg"):
+                        c = sorted(o["trades"])[0]
+                        o[clause][c] = bump(o[clause][c]); return True
+                    if clause == "trades":
+                        c = sorted(o["trades"])[0]
+                        o["trades"][c] = bump(o["trades"][c]); return True
+                if clause == "fifo" and o["op"] == "submit" and o["alloc"] and i > 12:
+                    c = sorted(o["alloc"])[0]
+                    o["alloc"][c] = bump(o["alloc"][c]); return True
+                if clause == "stamp" and o["op"] == "quote" and i > 12:
+                    o["t"] = o["t"] + 10 ** 6; return True
+                if o["op"] == "step" and i > 12:
+                    if clause == "reward":
+                        o["reward"] = bump(o["reward"]); return True
+                    if clause == "entries":
+                        o["entries"] += 1; return True
+                    if clause == "done":
+                        o["done"] = not o["done"]; return True
+        return False
+    for clause, named in (("nlv", "nlv"), ("pos", "pos"), ("mrg", "mrg"), ("cash", "cash"), ("trades", "trades"), ("ctxpre", "ctx"),
+                          ("ctxpost", "ctx"), ("fifo", "fifo"), ("stamp", "stamp"), ("reward", "reward"), ("entries", "entries"),
+                          ("done", "done")):
+        bad = json.loads(json.dumps(base, default=str))
+        for t, b in zip(bad, base):
+            t["cfg"] = b["cfg"]
+        assert corrupt(bad, clause), clause
+        rep = core.Report("selftest", "quick", 0)
+        el.validate(rep, "selftest", 0, 0, "quick", recs=bad, clauses=set(el.CLAUSE_PROPS))
+        ok = any(v["clause"] == "envledger_" + named for v in rep.violations)
+        results.append({"control": "EnvLedgerTrace corrupted field " + clause, "ok": ok, "reported": [v["key"] for v in rep.violations][:1]})
+        print("%-28s %s" % ("EnvLedgerTrace/" + clause, "ok" if ok else "FAILED %s" % [v["key"] for v in rep.violations][:1]))
+        allok &= ok
     os.makedirs(os.path.join(core.ROOT, "out"), exist_ok=True)
     with open(os.path.join(core.ROOT, "out", "selftest.json"), "w") as f:
         json.dump({"ok": bool(allok), "results": results}, f, indent=1)
